@@ -171,8 +171,10 @@ func (e *env) config() *action.Configuration {
 
 // OpObs is what one operation on one case did.
 type OpObs struct {
-	Mode        string   `json:"mode"` // install | dryrun | template | upgrade | upgradedry | lint
-	Skip        bool     `json:"skip"`
+	Mode        string   `json:"mode"`  // install | dryrun | template | upgrade | upgradedry | lint, or cli-<command> (through pkg/cmd)
+	Base        string   `json:"base"`  // the action the operation dispatches to (one of the six above): decides the expected order of effects
+	Flags       string   `json:"flags"` // command-line flags given besides the values (cli-* only)
+	Skip        bool     `json:"skip"`  // skip-schema-validation was requested
 	Ok          bool     `json:"ok"`
 	SchemaErr   bool     `json:"schemaErr"` // it failed with a schema rejection
 	Named       []string `json:"named"`     // chart names the rejection lists
@@ -490,6 +492,15 @@ func Run14(cf CaseFile, tmp string) Obs14 {
 			o.Ops = append(o.Ops, OpObs{Mode: "lint", Skip: skip, Named: []string{}, Err: "writedir: " + lerr.Error()})
 		} else {
 			o.Ops = append(o.Ops, lintOp(&c, lintDir, skip, vals()))
+		}
+	}
+	if cf.Cli && lerr == nil {
+		// the same operations through the command line (flag parsing and wiring of pkg/cmd)
+		o.Ops = append(o.Ops, cliOps(&c, lintDir, tmp, allValid, cf.CliFlag)...)
+	}
+	for i := range o.Ops {
+		if o.Ops[i].Base == "" {
+			o.Ops[i].Base = o.Ops[i].Mode
 		}
 	}
 	return o
